@@ -744,9 +744,8 @@ func (c *c16Case) observeAndCheck() c16Seen {
 			em.Monitor("announcement-refers-to-block-without-host-announcement", fmt.Sprintf("record %v", seen.annIdx))
 		}
 	} else if seen.annAddr != "" || seen.annHash != (types.Hash256{}) {
-		if len(c.chain) == 0 {
-			em.Monitor("announcement-address-or-hash-kept-on-empty-chain", fmt.Sprintf("address %q hash %v", seen.annAddr, seen.annHash))
-		}
+		// the record (index, v1 address, v2 hash) is cleared as a whole
+		em.Monitor("announcement-address-or-hash-kept-after-record-cleared", fmt.Sprintf("index empty, address %q hash %v", seen.annAddr, seen.annHash))
 	}
 	return seen
 }
